@@ -1,7 +1,15 @@
-import KalignModel.Props.C12
+import KalignModel.Props.C12Soft
 #print axioms Kalign.C12_dist_zero_of_equal
 #print axioms Kalign.C12_dist_pos_of_not_substring
 #print axioms Kalign.C12_dist_zero_iff
 #print axioms Kalign.C12_upgma_clade
 #print axioms Kalign.C12_upgma_clade_100
 #print axioms Kalign.C12_copies_form_clade
+#print axioms Kalign.C12Soft_entry_sep
+#print axioms Kalign.C12Soft_entry_sep_grid
+#print axioms Kalign.C12Soft_upgma_clade
+#print axioms Kalign.C12Soft_upgma_clade_100
+#print axioms Kalign.C12Soft_upgma_clade_le
+#print axioms Kalign.C12Soft_copies_form_clade
+#print axioms Kalign.C12Soft_smallTree_clade
+#print axioms Kalign.exC12_tree
